@@ -1122,10 +1122,12 @@ def run(components=None, broker=None):
     # ./meta_data directory are prepopulated in the broker as Specs so
     # no need to collect them again
     if broker.get(SerializedArchiveContext) is not None:
-        for comp in list(components):
+        prepopulated_deps = set()
+        for comp, deps in components.items():
             if comp in broker:
-                for dep in components[comp]:
-                    components.pop(dep, None)
+                prepopulated_deps.update(deps)
+        for dep in prepopulated_deps:
+            components.pop(dep, None)
     return run_components(run_order(components), components, broker)
 
 
